@@ -85,6 +85,8 @@ pub struct SegGen {
     pub coord_w: [u32; 5],
     pub cancel_pct: u64,
     pub horizon: i32,
+    pub forced_clear_at: Option<usize>,
+    pub generated: usize,
 }
 
 pub struct SegWorld {
@@ -114,8 +116,10 @@ impl SegWorld {
                 coord_w: [*r.pick(&[0, 1, 2]), *r.pick(&[0, 1, 2]), *r.pick(&[1, 2, 4]), *r.pick(&[0, 1, 3]), *r.pick(&[0, 1, 2])],
                 cancel_pct: *r.pick(&[0, 0, 10, 30, 60]),
                 horizon: *r.pick(&[2, 5, 20, 100]),
+                forced_clear_at: if cfg.has(O_TWIN) { Some(r.below(12) as usize) } else { None },
+                generated: 0,
             },
-            None => SegGen { w: [10, 10, 3, 1, 0, 1], exp_w: [1, 1, 2, 1, 1], coord_w: [1, 1, 2, 1, 1], cancel_pct: 10, horizon: 10 },
+            None => SegGen { w: [10, 10, 3, 1, 0, 1], exp_w: [1, 1, 2, 1, 1], coord_w: [1, 1, 2, 1, 1], cancel_pct: 10, horizon: 10, forced_clear_at: None, generated: 0 },
         };
         Ok(SegWorld { now: cfg.t0, tree, twin: None, items: Vec::new(), next_id: 1, scale, gen, cfg })
     }
@@ -464,6 +468,11 @@ impl World for SegWorld {
     }
 
     fn gen(&mut self, r: &mut Rng, _ctx: &mut RunCtx, _remaining: usize) -> Op {
+        self.gen.generated += 1;
+        if self.gen.forced_clear_at == Some(self.gen.generated - 1) {
+            let restart = if r.chance(1, 2) && self.now > 0 { r.range(0, self.now as i64 - 1) as i32 } else { -1 };
+            return Op::SClear { restart };
+        }
         let which = r.weighted(&self.gen.w.clone());
         match which {
             0 => {
